@@ -87,12 +87,9 @@ def correspond(ctx, corr):
             continue
         fam = family(c)
         # ---- flags ----
-        code = 0
-        for attr in ("_cmdval", "_opcode", "_event_info"):
-            v = getattr(c, attr, None)
-            if isinstance(v, int) and not isinstance(v, bool):
-                code = v
-                break
+        from gen import _registry as reg      # constants by name, or by probing when the library renamed them
+        code = reg.code_of(c)
+        code = code if isinstance(code, int) else 0
         row_fam = fam
         if fam == "special":
             row_fam = "special"
@@ -102,13 +99,11 @@ def correspond(ctx, corr):
                 "devSpecial1" if "_SpecialDeviceCommandOneParam" in base else "devSpecial0"
         if fam == "other":
             row_fam = "unknownGear" if c.__name__ == "UnknownGearCommand" else "unknownDevice"
-        ab = c._addr if fam == "devSpecial" else 0
-        ib = c._instance if row_fam in ("devSpecial0", "devSpecial1") else 0
-        if fam == "event":
-            v = getattr(c, "_event_info", None)
-            code = v if isinstance(v, int) else 0
-        hp = bool(getattr(c, "_hasparam", False))
-        want = "%d %s %d %d %d %s %d %s answer=%s" % (c._framesize, row_fam, code, ab, ib,
+        sa_, si_ = reg.special_bytes_of(c) if fam == "devSpecial" else (0, 0)
+        ab = sa_ if fam == "devSpecial" and isinstance(sa_, int) else 0
+        ib = si_ if row_fam in ("devSpecial0", "devSpecial1") and isinstance(si_, int) else 0
+        hp = bool(reg.hasparam_of(c))
+        want = "%d %s %d %d %d %s %d %s answer=%s" % (reg.framesize_of(c), row_fam, code, ab, ib,
                                                      "true" if hp else "false", c.devicetype,
                                                      "true" if c.sendtwice else "false", answer_class(c.response))
         ask("spec row " + name, want, ("flags", name))
@@ -170,13 +165,15 @@ def correspond(ctx, corr):
         elif fam == "event" and c.__name__ not in ("UnknownEvent", "AmbiguousInstanceType"):
             # Table 3: all five schemes, field values incl. 0 and the maxima, event information of the class
             from dali.device import occupancy, light
-            t = c._instance_type
+            t = c().instance_type if False else getattr(c, "_instance_type", None)
+            if t is None:
+                t = c(instance_group=0).instance_type
             if issubclass(c, occupancy.OccupancyEvent):
                 datas = [(x, x) for x in range(16)]
             elif issubclass(c, light.LightEvent):
                 datas = [(x, x) for x in (0, 1, 511, 1023, rng.randrange(1024))]
             else:
-                datas = [(None, c._event_info)]
+                datas = [(None, reg.code_of(c))]
             def f(v): return "-" if v is None else str(v)
             for dv, info in datas:
                 for sa, inum, ig, dg in [(0, None, None, None), (63, None, None, None), (rng.randrange(64), None, None, None),
